@@ -25,9 +25,10 @@ for p in sorted(glob.glob("/verif/harmless/*.diff")):
     print(name, "silent" if not alarms else "FALSE ALARMS %s" % sorted(alarms))
     for t, ls in alarms.items():
         for l in ls[:2]: print("     ", l[:260])
+OUT = os.environ.get("HARMLESS_OUT", "/verif/harmless/last_run.json")     # parallel groups write apart, merged afterwards
 try:
-    prev = json.load(open("/verif/harmless/last_run.json"))
+    prev = json.load(open(OUT))
 except Exception:
     prev = {}
 prev.update(out)           # a partial run refreshes its own entries only
-json.dump(prev, open("/verif/harmless/last_run.json", "w"), indent=1, sort_keys=True)
+json.dump(prev, open(OUT, "w"), indent=1, sort_keys=True)
